@@ -37,6 +37,9 @@ FIELD_PATTERNS = [
 ]
 
 
+_LANG_IN_KEY = False
+
+
 class TranslateError(Exception):
     pass
 
@@ -101,6 +104,10 @@ def key_fields(repo):
                 raise TranslateError("unexpected addonInfos loop body: %r" % inner)
             fields.append("F_addonInfos")
             continue
+        m = re.match(r"for\s*\(\s*const\s+std::string\s*&\s*(\w+)\s*:\s*mSettings\.(userUndefs|includePaths|libraries)\s*\)\s*toolinfo\s*<<\s*\"(-[UIl])\"\s*<<\s*(\w+)\s*;$", st)
+        if m and m.group(1) == m.group(4):
+            fields.append({"userUndefs": "F_userUndefs", "includePaths": "F_includePaths", "libraries": "F_libraries"}[m.group(2)])
+            continue
         if re.match(r"mSuppressions\.nomsg\.dump\(\s*toolinfo\s*,\s*filePath\s*\)\s*;", st):
             fields.append("F_suppressions")
             continue
@@ -142,6 +149,10 @@ def loc_enc(repo):
     blocks = re.findall(r"if\s*\(\s*!tok->comment\s*\)\s*\{(.*?)\}", body, flags=re.S)
     if len(blocks) != 2:
         raise TranslateError("Preprocessor::calculateHash: expected two token loops, found %d" % len(blocks))
+    global _LANG_IN_KEY
+    _LANG_IN_KEY = bool(re.search(r"std::string\s+hashData\s*=\s*toolinfo\s*;\s*hashData\s*\+=\s*std::to_string\(static_cast<int>\(mLang\)\)\s*;\s*for", body))
+    if not _LANG_IN_KEY and not re.search(r"std::string\s+hashData\s*=\s*toolinfo\s*;\s*for", body):
+        raise TranslateError("Preprocessor::calculateHash: unrecognised statement between the prologue and the token loop")
     if not re.search(r"std::string\s+hashData\s*=\s*toolinfo\s*;", body) or \
        not re.search(r"return\s*\(?\s*std::hash<std::string>\s*\{\}\s*\)?\s*\(\s*hashData\s*\)\s*;", body):
         raise TranslateError("Preprocessor::calculateHash: prologue/epilogue changed")
@@ -173,6 +184,8 @@ def loc_enc(repo):
 def generate(repo, out_path):
     kf = key_fields(repo)
     le, hp = loc_enc(repo)
+    if _LANG_IN_KEY:
+        kf = kf + ["F_enforcedLang"]     # appended to toolinfo by Preprocessor::calculateHash, before the tokens
     lmode = lookup_mode(repo)
     txt = ("(* GENERATED by tools/translate/keyfields.py from lib/cppcheck.cpp (CppCheck::calculateHash)\n"
            "   and lib/preprocessor.cpp (Preprocessor::calculateHash). Do not edit. *)\n"
